@@ -196,10 +196,31 @@ def rule_r4(ctx):
     its = [n for n in g.nodes if n.kind == "iter" and dotted(n.ast.iter) == "app_iter"]
     sites += [(i, "iteration of app_iter") for i in its]
     ctx.r.floor(rid, len(sites), 2, "application entry points in execute()")
+    base = (("Exception", "Exception"), ("OSError", "OSError (e.g. FileNotFoundError raised by the application)"), ("SystemExit", "BaseException-only (SystemExit/KeyboardInterrupt/GeneratorExit)"))
+    # every builtin exception class some handler of the package names is probed as well: a handler for a narrower class
+    # (say ConnectionError) between the application and the decision handler diverts exactly that class
+    import builtins
+    from ..excflow import ExcClass, resolve_handler_classes
+    named = set()
+    for fx in p.functions.values():
+        for h in ast.walk(fx.node):
+            if isinstance(h, ast.ExceptHandler) and h.type is not None:
+                for nm in resolve_handler_classes(p, fx, h) or ():
+                    bc = getattr(builtins, nm, None) if "." not in nm else None
+                    if isinstance(bc, type) and issubclass(bc, BaseException):
+                        named.add(nm)
+    derived = tuple((nm, "%s raised by the application" % nm) for nm in sorted(named - {b for b, _ in base} - {"BaseException"}))
     for (node, what) in sites:
-        for exc, label in (("Exception", "Exception"), ("OSError", "OSError (e.g. FileNotFoundError raised by the application)"), ("SystemExit", "BaseException-only (SystemExit/KeyboardInterrupt/GeneratorExit)")):
+        for exc, label in base + derived:
             terms = route(p, f, node, exc)
+            covered = [b for b, _ in base if b != exc and b in ExcClass(p, exc).ancestors()] if (exc, label) in derived else []
+            if (exc, label) in derived and "Exception" not in ExcClass(p, exc).ancestors():
+                covered.append("SystemExit")  # the representative of the BaseException-only classes
             for t in terms:
+                if covered and t.kind == "handler" and any(handler_catches(p, t.func, t.hnode.ast, b) for b in covered):
+                    continue  # the same handler already takes the base class: judged under that probe
+                if covered and t.kind == "escape":
+                    continue
                 if t.kind == "passthrough":
                     continue
                 if t.kind == "escape":
@@ -211,7 +232,7 @@ def rule_r4(ctx):
                     continue
                 beh = getattr(t, "behaviour", "swallow")
                 hname = norm(h.type) if h.type is not None else "<bare>"
-                if t.func.qual == "channel.HTTPChannel.service" and "ClientDisconnected" in hname:
+                if t.func.qual == "channel.HTTPChannel.service" and (resolve_handler_classes(p, t.func, h) or set()) <= {"ClientDisconnected", "channel.ClientDisconnected", "waitress.channel.ClientDisconnected", "utilities.ClientDisconnected"}:
                     ctx.r.ok(rid, "%s at %s -> ClientDisconnected handler (closes)" % (exc, what), t.func.loc(h))
                     continue
                 ctx.r.violation(rid, "app-exc-misrouted::%s::%s::%s::%s" % (exc, t.func.qual, hname, beh),
